@@ -104,9 +104,31 @@ def check(run):
         return 'ConversionOptions(recursive=%r, user_requested=%r, internal_convert_user_code=%r, optional_features=%r)' % (
             c[0], c[1], c[2], c[4])
 
+    hashes = []
     for c in objs:
-        o = CO(recursive=c[0], user_requested=c[1], internal_convert_user_code=c[2], optional_features=c[4])
+        arg = c[4]
+        if isinstance(arg, (list, set)):
+            arg = type(arg)(arg)         # a container the harness owns and mutates afterwards
+        o = CO(recursive=c[0], user_requested=c[1], internal_convert_user_code=c[2], optional_features=arg)
         py.append(o)
+        # the options value is immutable: it does not alias the caller's container
+        if isinstance(arg, (list, set)):
+            before = set(o.optional_features)
+            extra_m = [m for m in Feature.__members__.values() if m not in before]
+            if isinstance(arg, list):
+                arg.extend(extra_m)
+                del arg[:1]
+            else:
+                arg.update(extra_m)
+                if before:
+                    arg.discard(next(iter(before)))
+            if set(o.optional_features) != before:
+                failures.append(('the options value changes when the caller mutates the container it was built from', desc(c), ''))
+        try:
+            hashes.append(hash(o))
+        except Exception as e:   # noqa
+            hashes.append(None)
+            failures.append(('hash() of an options value raised %s: %s' % (type(e).__name__, e), desc(c), ''))
     members = list(Feature.__members__.values())
     cases = []
     for idx, (c, o) in enumerate(zip(objs, py)):
@@ -121,7 +143,7 @@ def check(run):
             back = eval(src, dict(extra))
             if not (back == o and o == back):
                 failures.append(('to_ast round-trip gives an unequal value', desc(c), src))
-            if hash(back) != hash(o):
+            if hashes[idx] is not None and hash(back) != hashes[idx]:
                 failures.append(('round-tripped value hashes differently', desc(c), src))
             if (back.recursive, back.user_requested, back.internal_convert_user_code, back.optional_features) != \
                (o.recursive, o.user_requested, o.internal_convert_user_code, o.optional_features):
@@ -174,7 +196,7 @@ def check(run):
                    (b.recursive, b.user_requested, b.internal_convert_user_code, b.optional_features)
             if e != same or (b == a) != same or (a != b) == same:
                 failures.append(('== disagrees with attribute-wise equality', desc(objs[i]), desc(objs[j])))
-            if same and hash(a) != hash(b):
+            if same and hashes[i] is not None and hashes[j] is not None and hashes[i] != hashes[j]:
                 failures.append(('equal options hash differently', desc(objs[i]), desc(objs[j])))
             if e and j < rep:
                 rep = j
